@@ -162,5 +162,32 @@ theorem rr07_cosmicray_law (ρ : Env) (s : SpecInfo) :
     simp [v, rr07CosmicRayRateTree, evalE, numVal_4, numVal_164em4]
   rw [this]
 
+theorem numVal_302 : numVal ['3', '.', '0', '2'] = 3.02 := by
+  have : parseDec ['3', '.', '0', '2'] = some (302, -2) := by decide
+  simp only [numVal, this]; norm_num
+
+/-- **C11 (cosmic-ray desorption, HH93).** `k = opt · cov · f(duty) · N_mono · n_sites · (ζ/ζ_ISM) · ν₀ · exp(−E_b / T_cr)`:
+    the thermal law evaluated at the peak temperature of a cosmic-ray heated grain, times the duty cycle. -/
+theorem hh93_cosmicray_law (ρ : Env) (s : SpecInfo) :
+    evalE ρ (hh93CosmicRayTree s) =
+      v ρ "opt_crd" * v ρ "cov" * v ρ "duty" * v ρ "nMono" * v ρ "densites" * (v ρ "zeta" / v ρ "zism") *
+        evalE ρ (nu0Tree s) * Real.exp (- ρ.var ("eb_".toList ++ s.alias) / v ρ "Tcr") := by
+  simp [v, hh93CosmicRayTree, expE, call1, evalE, evalArgs, applyFn]
+
+/-- **C11 (photodesorption, HH93).** `k = opt · cov · (G₀ F_H e^{−3.02 A_V} + F_crp ζ/ζ_ISM) · Y · N_mono · a_g`
+    with the species' own yield `Y`. -/
+theorem hh93_photon_law (ρ : Env) (s : SpecInfo) :
+    evalE ρ (hh93PhotonTree s) =
+      v ρ "opt_uvd" * v ρ "cov" *
+        (v ρ "G0" * v ρ "habing" * Real.exp (- v ρ "Av" * 3.02) + v ρ "crphot" * (v ρ "zeta" / v ρ "zism")) *
+        ρ.mag s.yieldId * v ρ "nMono" * v ρ "garea" := by
+  simp [v, hh93PhotonTree, expE, call1, M, evalE, evalArgs, applyFn, numVal_302]
+
+/-- **C11 (electron capture by grains, HH93).** `k = π r_G² · sqrt(8 k_B T / π / m_u / m_e[amu])` -/
+theorem hh93_ecapture_law (ρ : Env) :
+    evalE ρ hh93ECaptureTree =
+      v ρ "pi" * v ρ "rG" * v ρ "rG" * Real.sqrt (8 * v ρ "kerg" * v ρ "Tgas" / v ρ "pi" / v ρ "amu" / v ρ "meu") := by
+  simp [v, hh93ECaptureTree, sqrtE, call1, evalE, evalArgs, applyFn, numVal_8]
+
 end
 end Naunet.C11
